@@ -247,6 +247,18 @@ def run(ctx):
         outer = t[t.index('\n\n') + 2:t.rindex('\n-----BEGIN PGP SIGNATURE-----')]
         if r not in (outer, t):
             fails.append((t, 'nested message: the body of the outer envelope is %r, returned %r' % (outer, r)))
+    # messages beyond 1 MiB (LF and CRLF): the signed body, exactly
+    for nl in ('\n', '\r\n'):
+        body = nl.join('Line %d: some text of the signed control file, seventy characters or so' % i for i in range(17000))
+        t = nl.join(['-----BEGIN PGP SIGNED MESSAGE-----', 'Hash: SHA512', '', body] + sig_block(rng, nl, headers=[])) + nl
+        res, culprit = guarded([('remove_signature', t)], 120.0)
+        st['cases'] += 1
+        if culprit is not None:
+            fails.append((t, 'remove_signature does not return within 120 s on a well-formed message of %d characters' % len(t)))
+        elif not ((res[0] == body) if nl == '\n' else (res[0] in (body, body + '\r'))):
+            r0 = res[0] if isinstance(res[0], str) else repr(res[0])
+            fails.append((t, 'well-formed message of %d characters (%s line ends): the body is not what is returned (returned %d characters starting %r)'
+                          % (len(t), 'CRLF' if nl != '\n' else 'LF', len(r0), r0[:60])))
     # through the paragraph parser
     for text, body, nl in wf[:ctx.n(500, 5000)]:
         a = call(debcon.get_paragraph_data, text, remove_pgp_signature=True)
